@@ -531,7 +531,9 @@ func (g *G) genLiteral(label string) cfg.Val {
 			return cfg.Val{K: "float", FS: rapid.SampledFrom([]string{".inf", "-.inf", ".nan"}).Draw(g.T, label+"-fs")}
 		}
 		g.L.Add("lit:float")
-		return cfg.Float(rapid.SampledFrom([]float64{0, 1.5, -2.25, 1e21, 1e-7, 3.0, 123456789.125, 1.0, -2.0, 100.0}).Draw(g.T, label+"-f"))
+		return cfg.Float(rapid.SampledFrom([]float64{0, 1.5, -2.25, 1e21, 1e-7, 3.0, 123456789.125, 1.0, -2.0, 100.0,
+			// the extremes of float64 and a value with 17 significant digits and a large exponent
+			1e300, -1e155, 1.7976931348623157e308, 5e-324, 1e-300, 6.0221407612345678e23, 6.62607015e-34}).Draw(g.T, label+"-f"))
 	case 4:
 		g.L.Add("lit:bool")
 		return cfg.Bool(g.flip(label + "-b"))
